@@ -1,0 +1,6 @@
+//go:build !verif
+
+package utils
+
+// VerifYield is a no-op without the verif build tag.
+func VerifYield(string) {}
